@@ -58,8 +58,8 @@ CLAIMED.update({
 CLAIMED.update({
     "C16": dict(cat="model_checking", ref="DESIGN.md 4.9, 5/C16",
                 note="Trusted: TLC; the HAL simulator's notifier alarms and FPGA clock; harness/drivers/nd_driver.py (a wrapper around hal.waitForNotifierAlarm advances simulated time to the armed alarm, read through hal.simulation.getNextNotifierTimeout). Exhaustive runs bounded in number of waits and body durations.",
-                text="specs/NotifierDelay.tla (integers, microseconds): TLC checks alarm-on-grid, k-th wait not before t0+kP and exactly then when on time, catch-up after overruns, free releases the notifier and wait-after-free returns at once, exhaustively over body-duration patterns; a 'drift' mutation is caught. Real NotifierDelay objects (periods 1 ms .. 100 ms) are driven through random and TLC-simulated schedules; FPGA time after each wait(), the armed HAL alarm and the notifier count are validated step by step by TLC.",
-                tech="TLA+ spec NotifierDelay + TLC exhaustive invariants; TLC batch trace validation; simulated behaviours replayed"),
+                text="specs/NotifierDelay.tla (integers, microseconds): TLC checks alarm-on-grid, k-th wait not before t0+kP and exactly then when on time, catch-up after overruns, free releases the notifier and wait-after-free returns at once, exhaustively over body-duration patterns; a 'drift' mutation is caught. Real NotifierDelay objects (periods 1 ms .. 100 ms) are driven through random and TLC-simulated schedules; FPGA time after each wait(), the armed HAL alarm and the notifier count are validated step by step by TLC. In addition Apalache proves an inductive invariant of the model (alarm on the grid, k-th wait not before t0+kP) for unbounded runs.",
+                tech="TLA+ spec NotifierDelay + TLC exhaustive invariants; Apalache inductive invariant; TLC batch trace validation; simulated behaviours replayed"),
     "C17": dict(cat="other", ref="DESIGN.md 4.10, 5/C17",
                 note="Trusted: TLC; Python decimal (50 digits) for the datasheet power law A*v^B, which TLA+ cannot express - it enters as a table; AnalogInputSim round-trips doubles exactly. NaN is outside the quantifier.",
                 text="TLC enumerates all 4096 ADC codes x 3 sensor models, special voltages (negative, zero, tiny, floor, over-range, 1e300, +-inf) and 27 simulated distances per model, and checks on the readings of the real drivers: inside the documented range, non-increasing in the voltage, equal (+-1 micro-cm) to Clamp(Law) with Law from the independent decimal table, sim helper inverse. The case structure is specified in TLA+; the power-law constants are tied to the spec only through the trusted table - hence level 'other'.",
